@@ -1,5 +1,6 @@
 //! C05 — parsing yields exactly the denoted number, rejects all else, never panics.
 use bigdecimal::{BigDecimal, Num};
+use props::alpha::limit_spellings;
 use props::conv::*;
 use props::engine::*;
 use serde_json::{json, Value};
@@ -350,6 +351,28 @@ fn main() {
                     if let Some(v) = check("from_str", &m, 10) {
                         run.report(v);
                     }
+                }
+            }
+        }
+        t
+    });
+
+    // E8: numerals whose integer or fraction digits spell a machine-word limit (2^32, 2^64, 2^128, ... -2..+9)
+    let lim = limit_spellings();
+    run.bound("E8_limit_spellings", lim.len());
+    run.par("E8 word-limit spellings as integer / fraction digits", lim.len(), |i| {
+        let mut t = Tally::default();
+        let d = &lim[i];
+        let mut forms: Vec<String> = vec![d.clone(), format!("{}.", d), format!(".{}", d), format!("0.{}", d), format!("{}.{}", d, d), format!("1.{}", d), format!("{}e5", d), format!("0.{}e-7", d), format!("{}_{}", d, d), format!("0.000{}", d), format!("9.{}9", d)];
+        let signed: Vec<String> = forms.iter().map(|f| format!("-{}", f)).collect();
+        forms.extend(signed);
+        for f in forms {
+            t.states += 1;
+            t.nontrivial += 1;
+            for e in ENTRIES {
+                t.transitions += 1;
+                if let Some(v) = check(e, f.as_bytes(), 10) {
+                    run.report(v);
                 }
             }
         }
